@@ -16,6 +16,7 @@ type Clause struct {
 	Src   string
 	Expr  ast.Expr
 	Props []string // clause-level property tags (override function level if non-empty)
+	Uses  []string // other clause families whose hypotheses stay visible when this clause is proved in focus
 	Line  int
 	File  string
 }
@@ -24,6 +25,12 @@ type LoopSpec struct {
 	Invs        []*Clause
 	Decreases   *Clause
 	IterEnsures []*Clause // checked at the end of every iteration; it(e) is e at the start of the iteration
+}
+
+// LockInv is one clause of a monitor invariant.
+type LockInv struct {
+	Self string
+	C    *Clause
 }
 
 type Contract struct {
@@ -41,6 +48,7 @@ type Contract struct {
 	Loops    map[int]*LoopSpec
 	NamedLoops map[string]*LoopSpec
 	Pure     bool
+	AcqAssumes []*Clause // assumed at every lock acquisition of the function (stated environment assumption)
 	PureDef  *Clause // explicit definition of a pure function
 	Trusted  bool
 	NoInline bool
@@ -66,7 +74,7 @@ type ChanSpec struct {
 }
 
 var reFuncHdr = regexp.MustCompile(`^func\s*(?:\(\s*(\w+)\s+\*?([\w.]+)\s*\)\s*)?([\w#.]+)\s*(?:\(([^)]*)\))?\s*(.*)$`)
-var reClause = regexp.MustCompile(`^(requires|ensures|effect|invariant|decreases|assert|iter_ensures)(?:\[([\w@ ,.-]+)\])?\s+(.*)$`)
+var reClause = regexp.MustCompile(`^(requires|ensures|effect|assume_acq|invariant|decreases|assert|iter_ensures)(?:\[([\w@ ,.+-]+)\])?\s+(.*)$`)
 var reLoop = regexp.MustCompile(`^loop\s+(\w+)\s*:\s*(.*)$`)
 
 func (p *Prog) loadContracts(files ...string) error {
@@ -102,6 +110,8 @@ func (p *Prog) loadContractFile(path string) error {
 		for _, part := range strings.FieldsFunc(label, func(r rune) bool { return r == ' ' || r == ',' }) {
 			if strings.HasPrefix(part, "@") {
 				c.Props = append(c.Props, part[1:])
+			} else if strings.HasPrefix(part, "+") {
+				c.Uses = append(c.Uses, part[1:])
 			} else {
 				c.Label = part
 			}
@@ -234,6 +244,21 @@ func (p *Prog) loadContractFile(path string) error {
 				fields = append(fields, strings.TrimSpace(f))
 			}
 			p.guardedBy[prefix+m[1]] = fields
+			continue
+		}
+		if strings.HasPrefix(line, "lockinv") {
+			// lockinv[label] Type.lockField (self): expr  -- monitor invariant: assumed when the lock is acquired,
+			// proved when the write lock is released
+			m := regexp.MustCompile(`^lockinv(?:\[([\w@ ,.+-]+)\])?\s+([\w.]+)\s*\((\w+)\)\s*:\s*(.*)$`).FindStringSubmatch(line)
+			if m == nil {
+				return fmt.Errorf("%s:%d: bad lockinv declaration", path, lineNo)
+			}
+			c, _ := mkClause("lockinv", m[1], m[4])
+			p.lockInvs[prefix+m[2]] = append(p.lockInvs[prefix+m[2]], &LockInv{Self: m[3], C: c})
+			pending = append(pending, c)
+			lastClause = c
+			cur = nil
+			curChan = nil
 			continue
 		}
 		if strings.HasPrefix(line, "ghost field ") {
@@ -404,6 +429,8 @@ func (p *Prog) loadContractFile(path string) error {
 				cur.Ensures = append(cur.Ensures, c)
 			case "effect":
 				cur.Effects = append(cur.Effects, c)
+			case "assume_acq":
+				cur.AcqAssumes = append(cur.AcqAssumes, c)
 			default:
 				return fmt.Errorf("%s:%d: clause %s not allowed here", path, lineNo, m[1])
 			}
